@@ -194,6 +194,16 @@ def run_sequence(ctx, real, nfft, vec, seq, sampling=2.0, p=None):
             ctx.check(np.array_equal(got, base), "returning to %s does not restore the original values exactly: %s vs %s"
                       % (dflt, got.tolist()[:10], base.tolist()[:10]),
                       sig={"datatype": "real" if real else "complex", "parity": nfft % 2, "dst": s})
+    if getattr(p, "_c06_manual", False) and seq:
+        # a second object of the same size is converted afterwards: what the first one holds must not change
+        # (a conversion result that is a shared work array would)
+        held = np.array(p.psd, dtype=float)
+        q = make_spectrum(real, nfft, [float(3 * i + 1) for i in range(len(base))], sampling)
+        for s2 in ("twosided", "centerdc"):
+            _ = q.get_converted_psd(s2)
+            q.sides = s2
+        ctx.check(np.array_equal(np.array(p.psd, dtype=float), held),
+                  "the stored PSD of one object changed when another object of the same size was converted", sig={"clause": "bystander"})
     return changed
 
 
